@@ -44,18 +44,30 @@ Definition same_dir (f f' : fsstate) : Prop :=
   | _, _ => False
   end.
 
-Lemma sem_cases c ng st f o f' r : sem c ng st f o = (f', r) ->
+Lemma sem0_cases c ng st f o f' r : sem0 c ng st f o = (f', r) ->
   (o = OMkdir /\ r = ROk /\ f = None /\ f' = Some {| gen := ng; owner := c; hbf := false |}) \/
   (o = ORemove PDir /\ r = ROk /\ (exists d, f = Some d) /\ f' = None) \/
   (~ (o = OMkdir /\ r = ROk) /\ ~ (o = ORemove PDir /\ r = ROk) /\ same_dir f f').
 Proof.
-  unfold sem. intros H.
+  unfold sem0. intros H.
   destruct o as [|p|p|p|p|h one|one| |p]; try destruct p; destruct f as [d|]; simpl in H;
     repeat match type of H with context [if ?b then _ else _] => destruct b eqn:? end;
     inversion H; subst; clear H;
     try (left; repeat split; reflexivity);
     try (right; left; repeat split; eauto; reflexivity);
     right; right; (split; [intros [? ?]; congruence|]); (split; [intros [? ?]; congruence|]); simpl; auto.
+Qed.
+
+(* an injected fault replaces a read-side operation: nothing is created, nothing removed *)
+Lemma sem_cases c ng st fl f o f' r : sem c ng st fl f o = (f', r) ->
+  (o = OMkdir /\ r = ROk /\ f = None /\ f' = Some {| gen := ng; owner := c; hbf := false |}) \/
+  (o = ORemove PDir /\ r = ROk /\ (exists d, f = Some d) /\ f' = None) \/
+  (~ (o = OMkdir /\ r = ROk) /\ ~ (o = ORemove PDir /\ r = ROk) /\ same_dir f f').
+Proof.
+  assert (same_dir f f) as Hsd by (destruct f; simpl; auto).
+  unfold sem. destruct fl; [apply sem0_cases| |]; (destruct (is_read o) eqn:E; [|apply sem0_cases]);
+    intros H; inversion H; subst; right; right;
+    (split; [intros [-> _]; discriminate|]); (split; [intros [-> _]; discriminate|]); exact Hsd.
 Qed.
 
 (* ---------- Hoare-style safety of programs w.r.t. the ghost of a call ---------- *)
@@ -355,11 +367,11 @@ Proof.
   destruct a, v; inversion H; subst; clear H; simpl; repeat split; auto.
 Qed.
 
-Inductive mstep (s : state) (c : nat) (stale : nat) (s' : state) : Prop :=
+Inductive mstep (s : state) (c : nat) (stale : nat) (fl : fault) (s' : state) : Prop :=
 | MStep x a o k f' r x2 ret
     (Hx : nth_error (cs s) c = Some x)
     (Hcur : cur x = Some (a, Do o k))
-    (Hsem : sem c (ngen s) stale (fs s) o = (f', r))
+    (Hsem : sem c (ngen s) stale fl (fs s) o = (f', r))
     (Hx2 : let x1 := {| ovr := ovr x; cur := Some (a, nxt a (k r)); holds := holds x; alive := alive x;
                         eng := (match o, r with OMkdir, ROk => Some (ngen s) | _, _ => eng x end);
                         hbs := hbs x; gh := upd (gh x) o r |} in
@@ -368,11 +380,11 @@ Inductive mstep (s : state) (c : nat) (stale : nat) (s' : state) : Prop :=
     (Hbad : bad s' = bad s || ((match o, r with ORemove PDir, ROk => true | _, _ => false end) && live_owner (fs s) (cs s)))
     (Hcs : cs s' = set_nth (cs s) c x2).
 
-Lemma exec_main_inv s c stale s' ob : exec s (IStep c None stale) = Some (s', ob) -> mstep s c stale s'.
+Lemma exec_main_inv s c stale fl s' ob : exec s (IStep c None stale fl) = Some (s', ob) -> mstep s c stale fl s'.
 Proof.
   unfold exec. destruct (nth_error (cs s) c) as [x|] eqn:Hx; [|discriminate].
   destruct (cur x) as [[a p]|] eqn:Hcur; [|discriminate]. destruct p as [v|o k|k0]; [discriminate| |discriminate].
-  destruct (sem c (ngen s) stale (fs s) o) as [f' r] eqn:Hsem.
+  destruct (sem c (ngen s) stale fl (fs s) o) as [f' r] eqn:Hsem.
   match goal with |- context [match nxt a (k r) with Ret v => finish ?X a v ?E | Do _ _ => (?Y, None) | Chk _ => _ end] =>
     destruct (match nxt a (k r) with Ret v => finish X a v E | Do _ _ => (Y, None) | Chk _ => (Y, None) end) as [x2 ret] eqn:Hx2 end.
   intros H. inversion H; subst; clear H.
@@ -382,9 +394,9 @@ Proof.
 Qed.
 
 (* what a step of the API thread does to the contender that takes it *)
-Lemma mstep_x2 s c stale s' : mstep s c stale s' ->
+Lemma mstep_x2 s c stale fl s' : mstep s c stale fl s' ->
   exists x a o k r x2, nth_error (cs s) c = Some x /\ cur x = Some (a, Do o k) /\
-    sem c (ngen s) stale (fs s) o = (fs s', r) /\ cs s' = set_nth (cs s) c x2 /\
+    sem c (ngen s) stale fl (fs s) o = (fs s', r) /\ cs s' = set_nth (cs s) c x2 /\
     bad s' = bad s || ((match o, r with ORemove PDir, ROk => true | _, _ => false end) && live_owner (fs s) (cs s)) /\
     alive x2 = alive x /\ ovr x2 = ovr x /\ gh x2 = upd (gh x) o r /\
     eng x2 = (match o, r with OMkdir, ROk => Some (ngen s) | _, _ => eng x end) /\
@@ -403,10 +415,10 @@ Proof.
 Qed.
 
 (* every other item changes one contender record and at most the heartbeat file *)
-Definition item_c (it : item) : nat := match it with ICall c _ | IStep c _ _ | IKill c | IDeadline c => c end.
+Definition item_c (it : item) : nat := match it with ICall c _ | IStep c _ _ _ | IKill c | IDeadline c => c end.
 
 Lemma exec_other_inv s it s' ob : exec s it = Some (s', ob) ->
-  (forall c st, it <> IStep c None st) ->
+  (forall c st fl, it <> IStep c None st fl) ->
   exists x x2, nth_error (cs s) (item_c it) = Some x /\ cs s' = set_nth (cs s) (item_c it) x2 /\
     bad s' = bad s /\ same_dir (fs s) (fs s') /\ ovr x2 = ovr x /\
     ( (exists a, it = ICall (item_c it) a /\ is_acquire a = true /\ cur x = None /\ holds x = false /\ alive x = true /\
@@ -422,7 +434,7 @@ Proof.
   assert (forall f, same_dir f f) as Hsd by (intros [d|]; simpl; auto).
   Ltac pre5 Hsd := eexists; eexists; (split; [eassumption || reflexivity|]); (split; [reflexivity|]); (split; [reflexivity|]);
         (split; [simpl; auto|]); (split; [reflexivity|]).
-  destruct it as [c a|c [k|] st|c|c]; simpl; intros H Hnot.
+  destruct it as [c a|c [k|] st fl|c|c]; simpl; intros H Hnot.
   - destruct (nth_error (cs s) c) as [x|] eqn:Hx; [|discriminate].
     destruct (cur x) eqn:Hcur; [discriminate|]. destruct (alive x) eqn:Hal; [|discriminate]. simpl in H.
     destruct (obj_busy s c); [discriminate|].
@@ -485,7 +497,7 @@ Proof.
   destruct a; try discriminate E. constructor. unfold Qof. simpl. unfold Qacq. discriminate.
 Qed.
 
-Lemma Inv_mstep s c st s' : Inv s -> mstep s c st s' -> Inv s'.
+Lemma Inv_mstep s c st fl s' : Inv s -> mstep s c st fl s' -> Inv s'.
 Proof.
   intros (Hex & Hhe & Hps) Hm.
   apply mstep_x2 in Hm as (x & a & o & k & r & x2 & Hx & Hcur & Hsem & Hcs & Hbad & Hal & Hov & Hgh & Heng & Hho & Hcu).
@@ -497,7 +509,7 @@ Proof.
   - (* excl *)
     intros Hb. assert (bad s = false) as Hb0 by (rewrite Hbad in Hb; apply orb_false_iff in Hb; tauto).
     specialize (Hex Hb0). intros c' x' g Hx' Ha' He'. rewrite Hcs in Hx'.
-    destruct (sem_cases c (ngen s) st (fs s) o (fs s') r Hsem) as [(-> & -> & Hf & Hf')|[(-> & -> & [d Hf] & Hf')|(Hnc & Hnr & Hsd)]].
+    destruct (sem_cases c (ngen s) st fl (fs s) o (fs s') r Hsem) as [(-> & -> & Hf & Hf')|[(-> & -> & [d Hf] & Hf')|(Hnc & Hnr & Hsd)]].
     + apply nth_set_nth in Hx' as [[<- ->]|[Hne Hx']].
       * rewrite Heng in He'. inversion He'; subst. rewrite Hf'. eexists; split; [reflexivity|]. simpl; auto.
       * destruct (Hex c' x' g Hx' Ha' He') as (d & Hd & _). congruence.
@@ -528,7 +540,7 @@ Proof.
     + split; [apply safe_prog_of_acquire; exact Hacq|auto].
 Qed.
 
-Lemma Inv_other s it s' ob : Inv s -> exec s it = Some (s', ob) -> (forall c st, it <> IStep c None st) -> Inv s'.
+Lemma Inv_other s it s' ob : Inv s -> exec s it = Some (s', ob) -> (forall c st fl, it <> IStep c None st fl) -> Inv s'.
 Proof.
   intros (Hex & Hhe & Hps) He Hnot.
   destruct (exec_other_inv s it s' ob He Hnot) as (x & x2 & Hx & Hcs & Hbad & Hsd & Hov & Hcase).
@@ -559,7 +571,7 @@ Qed.
 
 Lemma Inv_exec s it s' ob : Inv s -> exec s it = Some (s', ob) -> Inv s'.
 Proof.
-  intros HI He. destruct it as [c a|c [k|] st|c|c].
+  intros HI He. destruct it as [c a|c [k|] st fl|c|c].
   - eapply Inv_other; eauto. discriminate.
   - eapply Inv_other; eauto. discriminate.
   - eapply Inv_mstep; eauto. eapply exec_main_inv; eauto.
